@@ -151,7 +151,9 @@ impl ToMysqlValue for u8 {
                 }
             }
             ColumnType::MYSQL_TYPE_TINY => {
-                assert!(!signed);
+                if signed {
+                    return Err(bad(self, c));
+                }
                 w.write_u8(*self)
             }
             _ => Err(bad(self, c)),
@@ -186,7 +188,9 @@ impl ToMysqlValue for i8 {
                 }
             }
             ColumnType::MYSQL_TYPE_TINY => {
-                assert!(signed);
+                if !signed {
+                    return Err(bad(self, c));
+                }
                 w.write_i8(*self)
             }
             _ => Err(bad(self, c)),
@@ -214,7 +218,9 @@ impl ToMysqlValue for u16 {
                 }
             }
             ColumnType::MYSQL_TYPE_SHORT | ColumnType::MYSQL_TYPE_YEAR => {
-                assert!(!signed);
+                if signed {
+                    return Err(bad(self, c));
+                }
                 w.write_u16::<LittleEndian>(*self)
             }
             _ => Err(bad(self, c)),
@@ -242,7 +248,9 @@ impl ToMysqlValue for i16 {
                 }
             }
             ColumnType::MYSQL_TYPE_SHORT | ColumnType::MYSQL_TYPE_YEAR => {
-                assert!(signed);
+                if !signed {
+                    return Err(bad(self, c));
+                }
                 w.write_i16::<LittleEndian>(*self)
             }
             _ => Err(bad(self, c)),
@@ -263,7 +271,9 @@ impl ToMysqlValue for u32 {
                 }
             }
             ColumnType::MYSQL_TYPE_LONG | ColumnType::MYSQL_TYPE_INT24 => {
-                assert!(!signed);
+                if signed {
+                    return Err(bad(self, c));
+                }
                 w.write_u32::<LittleEndian>(*self)
             }
             _ => Err(bad(self, c)),
@@ -284,7 +294,9 @@ impl ToMysqlValue for i32 {
                 }
             }
             ColumnType::MYSQL_TYPE_LONG | ColumnType::MYSQL_TYPE_INT24 => {
-                assert!(signed);
+                if !signed {
+                    return Err(bad(self, c));
+                }
                 w.write_i32::<LittleEndian>(*self)
             }
             _ => Err(bad(self, c)),
@@ -298,7 +310,9 @@ impl ToMysqlValue for u64 {
         let signed = !c.colflags.contains(ColumnFlags::UNSIGNED_FLAG);
         match c.coltype {
             ColumnType::MYSQL_TYPE_LONGLONG => {
-                assert!(!signed);
+                if signed {
+                    return Err(bad(self, c));
+                }
                 w.write_u64::<LittleEndian>(*self)
             }
             _ => Err(bad(self, c)),
@@ -312,7 +326,9 @@ impl ToMysqlValue for i64 {
         let signed = !c.colflags.contains(ColumnFlags::UNSIGNED_FLAG);
         match c.coltype {
             ColumnType::MYSQL_TYPE_LONGLONG => {
-                assert!(signed);
+                if !signed {
+                    return Err(bad(self, c));
+                }
                 w.write_i64::<LittleEndian>(*self)
             }
             _ => Err(bad(self, c)),
